@@ -119,6 +119,12 @@ def feasible_linear(rng, d):
   n, units = d["n"], d["units"]
   sc = [abs(v) for v in lin_scalings(d)]
   cols = []
+  # with a norm configured, one case in six: every column scaled by 2^-40 instead of normalised (exact scaling, every
+  # inequality is kept; norms around 1e-11 < 1e-8): feasible, non-zero and NUMERICALLY ZERO, so it must come back
+  # unchanged and not scaled up to unit norm (C06_linear_feasible_fixed_numerically_zero_l1 / _l2)
+  tiny = bool(d["norm"]) and rng.random() < 1.0 / 6
+  if tiny:
+    d["tinynorm"] = True
   for _ in range(units):
     if rng.random() < 0.125:
       cols.append([0.0] * n)
@@ -140,7 +146,9 @@ def feasible_linear(rng, d):
     else:
       return None
     col = [v * (m if m != 0 else rng.choice([-1, 1])) for v, m in zip(mag, d["monos"])]
-    if d["norm"]:
+    if tiny:
+      col = [v * 2.0 ** -40 for v in col]
+    elif d["norm"]:
       nr = float(np.linalg.norm(np.array(col), ord=d["norm"]))
       if nr > 0:
         col = [v / nr for v in col]
@@ -303,6 +311,7 @@ def gen_descs(ctx):
     d = dict(kind="linear", n=n, units=units, monos=monos, mdom=mdom, rdom=rdom, lo=lo, hi=hi, norm=norm)
     W = feasible_linear(rng, d) if klass == "feasible" else None
     if W is None:
+      d.pop("tinynorm", None)
       klass = "random" if klass == "feasible" else klass
       W = rand_weights(rng, n, units, klass, monos)
     d.update(W=W, wclass=klass, lo_form=rng.choice(BOUND_FORMS), hi_form=rng.choice(BOUND_FORMS))
@@ -414,7 +423,7 @@ def eval_cases(ctx, descs):
       coq = "CLin %s %s %s %s" % (cfg, cnat(d["units"]), cqm(d["W"]), copt(out, cqm) if exc is None else "None")
       forms = set([d.get("lo_form", "list"), d.get("hi_form", "list")])
       klass = "lin_%s%s%s_%s%s%s" % ("m" if d["mdom"] else "", "r" if d["rdom"] else "",
-                                      "n%d" % d["norm"] if d["norm"] else "", d["wclass"],
+                                      "n%d" % d["norm"] if d["norm"] else "", d["wclass"] + ("0" if d.get("tinynorm") else ""),
                                       "_cyc-" + d["cycle"] + ("" if exc else "-NOT-REJECTED") if d.get("cycle") else "",
                                       ("_B" + ("t" if forms & set(["tuple", "tuple_str"]) else "") +
                                        ("s" if forms & set(["str", "tuple_str"]) else "")) if forms != set(["list"]) else "")
